@@ -8,7 +8,8 @@ from .util import *
 REJECT = ('ParseException', 'ValueError')
 WS = ' \t\n\r'
 BAD_TOKENS = ['Xx', 'Ab', 'Hx', 'Q', 'J', 'Aa', 'Zz', 'Cos', 'Nah', 'Uu', 'X', 'A', 'D', 'E', 'G', 'L', 'M', 'R', 'T', 'Z', 'Feo', 'Ci']
-BAD_CHARGES = ['+-', '-+', '+3-', '-2+', '++', '--', '+2+', '-1-', '+-2', '3+-']
+BAD_CHARGES = ['+-', '-+', '+3-', '-2+', '++', '--', '+2+', '-1-', '+-2', '3+-', '+-3', '-+1']
+INT_FORMS = ['+ 3', '+3 ', '-\t2\n', '+1_0', '-1_0_0', '+1__0', '+_1', '-1_', '+ ', '+1 0', '+\x0b3\x0c', '+\x1c3', '+007', '-0', '+0_0', '+ 1_2 (aq)']
 OPEN = '([{'
 CLOSE = {')': '(', ']': '[', '}': '{'}
 ALPHABET = "()[]{}@.*'+-/·0123456789 abcdeglqrsuxy" + 'ABCDEFGHIKLMNOPRSTUVWXYZJQ'
@@ -51,14 +52,15 @@ def ill_classes(s):
 
 
 def in_domain(s):
-    """outside the generated domain: non-ASCII digits anywhere; blanks / '_' inside the charge number"""
+    """outside the modelled domain: non-ASCII digits anywhere, non-ASCII whitespace inside the charge number
+    (both accepted by Python's `\\d` / int()); everything ASCII is modelled, incl. blanks and `_` in the charge number"""
     if any(ch.isdigit() and not ('0' <= ch <= '9') for ch in s) or any(ord(ch) > 127 and ch.isnumeric() for ch in s):
         return False
     core = strip_affixes(s)
     for tok in '+-':
         if tok in core:
             after = core.split(tok, 1)[1]
-            if any(ch in after for ch in ' \t\n\r\x0b\x0c_') or any(ord(ch) > 127 and ch.isspace() for ch in after):
+            if any(ord(ch) > 127 and ch.isspace() for ch in after):
                 return False
             break
     return True
@@ -176,9 +178,10 @@ def mutate(rng, s):
         return s + rng.choice(')]}')
     if r < 0.72:
         return s[:i] + rng.choice(BAD_TOKENS) + s[i:]              # unknown capitalised token
+    if r < 0.80:
+        return s + rng.choice(BAD_CHARGES)                         # contradictory charge marks
     if r < 0.84:
-        core = s
-        return core + rng.choice(BAD_CHARGES)                      # contradictory charge marks
+        return strip_affixes(s).split('+')[0].split('-')[0] + rng.choice(INT_FORMS)   # what int() tolerates / refuses in the charge number
     if r < 0.90:
         return s[:i] + rng.choice(ALPHABET) + s[i:]
     if r < 0.95:
@@ -238,10 +241,22 @@ class C01(Property):
             'counts, hydrate parts with both separators and leading counts, every default prefix, suffixes, states, primes/stars, charges) rendered '
             'and parsed by formula_to_composition and Substance.from_formula; ordered pairs of adjacent symbols (all 118^2 in the thorough tier, '
             '1500 random ones in the quick tier); whitespace variants; a malformed stream (drop/duplicate/swap characters, stray or missing brackets, '
-            'unknown capitalised tokens, contradictory / repeated charge marks, slashes, stray separators). A case counts as non-trivial when it is '
+            'unknown capitalised tokens, contradictory / repeated charge marks, int()-forms of the charge number (blanks, underscores), slashes, stray separators); operation histories (parse / Substance.from_formula(charge=) / Species.from_formula / in-place mutation of returned dicts / parse again) over one or two formulas. A case counts as non-trivial when it is '
             'a distinct JSON value whose text has at least two characters.')
+    clauses_without_theorem = (
+        'model <-> Python: pyparsing engine, str methods, dict order are modelled by hand; the tie is the correspondence check only (all theorems are about the model)',
+        'Substance.from_formula(...).composition and Species.from_formula(...).composition delegate to formula_to_composition: guarded by the extractor '
+        '(source text of Substance.from_formula) and checked by correspondence / history cases only',
+        'float semantics of decimal subscripts: the real code multiplies Python floats and narrows n == int(n) to int; the theorems speak about exact rationals; '
+        'agreement within 1e-12 relative is sampled (e.g. (Fe0.1)3 -> 0.30000000000000004)',
+        'integer counts / products >= 2**53 lose precision in the real code (H9007199254740993 -> 9007199254740992); theorems are exact; harness compares exactly only below 2**53',
+        'non-ASCII digits (accepted by \\d and int()) and non-ASCII whitespace inside the charge number: the model rejects them, Python accepts them; excluded from generation',
+        'results are fresh objects (no aliasing between two parses, no effect of mutating a returned dict or of Substance(..., charge=q) on later parses): history cases, oracle only',
+        'uniqueness of the string-level denotation Den (that a text has only one reading) is not proved; accepted_value_sound gives the reading the parser used',
+        'the exception class (ParseException vs ValueError) is compared as accept/reject only',
+    )
     assumptions = ('pyparsing (ordered choice, whitespace skipping, greedy OneOrMore, parse actions) is modelled as a recursive-descent parser and tied by this correspondence only',
-                   'outside the modelled domain, excluded from generation: non-ASCII digits, blanks / "_" inside the charge number (accepted by Python int())',
+                   'outside the modelled domain, excluded from generation: non-ASCII digits, non-ASCII whitespace inside the charge number (accepted by Python int())',
                    'Python float arithmetic on decimal counts is not modelled: exact rationals vs floats within 1e-12 relative; integer-only formulas exactly (below 2^53)',
                    'AST -> text renderer and denotation (tools/harness/formula_gen.py = Model/FormulaSpec.lean) are the specification')
     anchors = (('chempy/util/parsing.py', '_get_formula_parser'), ('chempy/util/parsing.py', '_get_charge'),
